@@ -400,8 +400,8 @@ def run(ctx):
     if ctx.thorough:
         probes = all_probes
     else:
-        probes = [p for p in all_probes if p[2] == 1 or (p[2] == 3) or p[0].startswith(mslprobe.REDUCING)]
-    probe_cases, probe_srcs = run_probes(ctx, tools, enums, runner, probes, ctx.scale(10, 40))
+        probes = [p for p in all_probes if p[2] == 1 or (p[0].startswith(mslprobe.REDUCING) and p[2] == 2)]
+    probe_cases, probe_srcs = run_probes(ctx, tools, enums, runner, probes, ctx.scale(6, 40))
 
     # ---- whole programs
     setnames_all = list(mslcorr.OPTSETS)
@@ -425,8 +425,7 @@ def run(ctx):
             sets = setnames_all
         else:
             others = [s for s in setnames_all if s != "default"]
-            sets = ["default", others[i % len(others)], others[(i * 5 + 3) % len(others)]]
-            sets = list(dict.fromkeys(sets))
+            sets = ["default", others[(i + ctx.seed) % len(others)]]
         prog_cases += queue_program(ctx, enums, runner, name, r, sets, d["mode"], d["rt"], ctx.scale(2, 8), "prog")
         # per-entry-point resource maps / FakeMissingBindings
         o1, sl1 = mslcorr.binding_optset(r["ir"], enums, "epmap")
@@ -442,8 +441,8 @@ def run(ctx):
 
     # ---- repository shaders (compute entry points inside the fragment)
     corp = nagarun.corpus()
-    crng = ctx.rng.fork("corpus")
-    corp = crng.shuffle(corp)[:ctx.scale(30, len(corp))]
+    if not ctx.thorough:
+        corp = [c for c in corp if c[0] in QUICK_CORPUS]
     cres = mslcorr.compile_programs(tools, corp, ["default", "v12_restrict"] if ctx.thorough else ["default"])
     ncorp = 0
     for name, src in corp:
@@ -499,6 +498,13 @@ def run(ctx):
         ctx.cov["broken_tie"] = broken
 
 
+# repository shaders with compute entry points inside the fragment that run quickly (quick tier; thorough runs all)
+QUICK_CORPUS = {"6220-break-from-loop.wgsl", "7048-multiple-dynamic-1.wgsl", "arrays.wgsl", "atomics.wgsl", "bitcast.wgsl",
+                "break-if.wgsl", "collatz.wgsl", "compute-store-struct-compound-rmw.wgsl", "control_flow.wgsl", "globals.wgsl",
+                "pointer-function-arg.wgsl", "pointers.wgsl", "select.wgsl", "struct-layout.wgsl", "switch_advanced.wgsl",
+                "loops_advanced.wgsl", "hlsl_mat_cx3.wgsl", "structs.wgsl"}
+
+
 def hash_pick(name):
     import hashlib
     return hashlib.sha256(name.encode()).digest()[0] % 3 == 0
@@ -536,7 +542,7 @@ def queue_policies(ctx, tools, enums, runner, srcs):
             continue
         rng = ctx.rng.fork("policy/" + name)
         inputs = []
-        for i in range(ctx.scale(6, 24)):
+        for i in range(ctx.scale(4, 24)):
             inp = plan_h.make_input(rng.fork(str(i)), mode="finite", rt_len=d["rt"], k=0)
             # the uniform `ix` holds the hostile indices
             for h, sp, b, ty in plan_h.globals:
